@@ -38,6 +38,9 @@ def get_prop(pid):
     if pid == "C13":
         import p_place
         return p_place.PlaceProp()
+    if pid in ("C04", "C05"):
+        import p_spaces
+        return p_spaces.SpacesProp(pid)
     raise SystemExit(f"unknown property {pid}")
 
 
